@@ -151,4 +151,11 @@ Section Find.
       | Some m => if loc_eqb m then (t :: ps, ds) else (ps, t :: ds)
       end
     end.
+  (* ParsePermissionAndDischargeTokens once the header is tokenised: exactly one permission token, whatever the
+     number of tokens *)
+  Definition perm_and_dis (toks : list bytes) : option (bytes * list bytes) :=
+    match find_perm_dis toks with
+    | ([p], ds) => Some (p, ds)
+    | _ => None
+    end.
 End Find.
